@@ -49,8 +49,10 @@ void h_PHJ(void)
   /* op1->next and op2->prev are not each other's ends: both new rings keep at least one vertex (what the horizontal-segment pairing yields) */
   hj.op1 = &g_n[a]; hj.op2 = &g_n[b];
   __CPROVER_assume(hj.op1->next != hj.op2);
+  OutRecList* splits0 = o1.splits;
   ProcessHorzJoins(&cb);
   __CPROVER_assert(g_nnewor == 1 && o1.pts != NULL && g_newor.pts != NULL, "a split creates exactly one new OutRec and both own a ring");
+  if (cb.using_polytree_) __CPROVER_assert(splits0 ? (o1.splits == splits0 && g_nlists == 0) : (o1.splits == &g_list && g_nlists == 1), "an existing split list is kept (earlier split-off contours are not forgotten, nothing leaks); a new one is made only when there was none");
   unsigned n1 = ring_len(o1.pts), n2 = ring_len(g_newor.pts);
   __CPROVER_assert(n1 + n2 == R && n1 >= 1 && n2 >= 1, "no vertex lost or duplicated");
   __CPROVER_assert(!ring_has(o1.pts, g_newor.pts), "the two OutRecs own different rings");
